@@ -297,12 +297,26 @@ pub fn explore(all_ops: &[Op]) -> Vec<(Model, Vec<Op>)> {
 /// authoritative, inserted one by one; after every insertion and after ticks the store is read back.
 /// kinds[i]: 0 authoritative, otherwise cached with that TTL.
 pub fn check_scale(n: usize, auth_at: usize, ttl_of: &dyn Fn(usize) -> u32) -> Vec<Finding> {
-    let case = json!({"kind": "scale", "n": n, "auth_at": auth_at});
+    check_scale_of(n, auth_at, ttl_of, false)
+}
+
+/// `types`: the records differ in their TYPE code (hundreds of distinct types under one name)
+/// instead of in their address.
+pub fn check_scale_of(n: usize, auth_at: usize, ttl_of: &dyn Fn(usize) -> u32, types: bool) -> Vec<Finding> {
+    let case = json!({"kind": "scale", "n": n, "auth_at": auth_at, "types": types});
     let r = guarded(|| -> Result<Vec<(String, String)>, String> {
         let owner = RefName::txt("x.svc.local");
+        let codes: Vec<u16> = (0..4000u32).map(|i| 300 + (i as u16) * 13).filter(|c| crate::bind::library_has_no_variant_for(*c)).collect();
         let recs: Vec<RefRR> = (0..n)
-            .map(|i| RefRR { name: if i % 7 == 6 { RefName::txt("svc.local") } else { owner.clone() }, class: 1, cache_flush: false, ttl: 0, rdata: typed(1, vec![Val::U32(0x0a00_0000 + i as u32)]) })
+            .map(|i| RefRR {
+                name: if i % 7 == 6 { RefName::txt("svc.local") } else { owner.clone() },
+                class: 1,
+                cache_flush: false,
+                ttl: 0,
+                rdata: if types && i % 4 != 3 { RefRData::Opaque { code: codes[i % codes.len()], data: crate::refmodel::B(vec![(i / codes.len()) as u8, 7]) } } else { typed(1, vec![Val::U32(0x0a00_0000 + i as u32)]) },
+            })
             .collect();
+        let keys: Vec<String> = recs.iter().map(|r| lib_rr(r).map(|l| format!("{:?}", l.rdata))).collect::<Result<_, _>>()?;
         let mut store = ResourceRecordManager::new();
         let mut bad = Vec::new();
         let mut left: Vec<Option<u32>> = vec![None; n]; // None absent, Some(u32::MAX) authoritative, Some(k) seconds left (0 = expired)
@@ -310,17 +324,17 @@ pub fn check_scale(n: usize, auth_at: usize, ttl_of: &dyn Fn(usize) -> u32) -> V
             for (name, idxs) in [("x.svc.local", (0..n).filter(|i| i % 7 != 6).collect::<Vec<_>>()), ("svc.local", (0..n).filter(|i| i % 7 == 6).collect::<Vec<_>>())] {
                 let nm = RefName::txt(name);
                 let ln = lib_name(&nm);
-                let got_auth: std::collections::HashSet<u32> = store.get_domain_resources(&ln, DomainResourceFilter::authoritative(false)).flatten().filter_map(|r| match &r.rdata { simple_dns::rdata::RData::A(a) => Some(a.address), _ => None }).collect();
-                let got_all: std::collections::HashSet<u32> = store.get_domain_resources(&ln, DomainResourceFilter::all()).flatten().filter(|r| obs_name(&r.name) == RefName::txt(name)).filter_map(|r| match &r.rdata { simple_dns::rdata::RData::A(a) => Some(a.address), _ => None }).collect();
+                let got_auth: std::collections::HashSet<String> = store.get_domain_resources(&ln, DomainResourceFilter::authoritative(false)).flatten().map(|r| format!("{:?}", r.rdata)).collect();
+                let got_all: std::collections::HashSet<String> = store.get_domain_resources(&ln, DomainResourceFilter::all()).flatten().filter(|r| obs_name(&r.name) == RefName::txt(name)).map(|r| format!("{:?}", r.rdata)).collect();
                 for i in &idxs {
-                    let addr = 0x0a00_0000 + *i as u32;
+                    let addr = &keys[*i];
                     let is_auth = left[*i] == Some(u32::MAX);
                     let alive = matches!(left[*i], Some(k) if k > 0);
-                    if got_auth.contains(&addr) != is_auth {
-                        bad.push((if is_auth { "scale-authoritative-missing".into() } else { "scale-cached-in-authoritative-query".into() }, format!("{}: record {} of {} (state {:?}) authoritative query says {}", when, i, n, left[*i], got_auth.contains(&addr))));
+                    if got_auth.contains(addr) != is_auth {
+                        bad.push((if is_auth { "scale-authoritative-missing".into() } else { "scale-cached-in-authoritative-query".into() }, format!("{}: record {} of {} (state {:?}) authoritative query says {}", when, i, n, left[*i], got_auth.contains(addr))));
                     }
-                    if got_all.contains(&addr) != alive {
-                        bad.push((if alive { "scale-record-missing".into() } else { "scale-dead-record-returned".into() }, format!("{}: record {} of {} (state {:?}) combined query says {}", when, i, n, left[*i], got_all.contains(&addr))));
+                    if got_all.contains(addr) != alive {
+                        bad.push((if alive { "scale-record-missing".into() } else { "scale-dead-record-returned".into() }, format!("{}: record {} of {} (state {:?}) combined query says {}", when, i, n, left[*i], got_all.contains(addr))));
                     }
                 }
             }
@@ -474,6 +488,62 @@ pub fn check_ingest(seq: &[(u32, bool)], gap: u64, asynchronous: bool) -> Vec<Fi
     }
 }
 
+/// Exact lifetime of one network-learned record with an arbitrary TTL: alive after ttl - 1
+/// seconds, gone after ttl (and after 1 second when it came with the cache-flush bit), through
+/// the real ingest path and the virtual clock.
+pub fn check_ingest_exact(ttl: u32, flush: bool, asynchronous: bool) -> Vec<Finding> {
+    use simple_mdns::verif::{add_response_to_resources, add_response_to_resources_async};
+    let case = json!({"kind": "ingest-exact", "ttl": ttl, "flush": flush, "async": asynchronous});
+    let r = guarded(|| -> Result<Vec<(String, String)>, String> {
+        let mut bad = Vec::new();
+        let service = lib_name(&RefName::txt("svc.local")).into_owned();
+        let own = lib_name(&RefName::txt("me.svc.local")).into_owned();
+        let owner_ref = RefName::txt("peer.svc.local");
+        let owner = lib_name(&owner_ref).into_owned();
+        let mut store = ResourceRecordManager::new();
+        let mut p = RefPacket { id: 0, flags: F_QR | F_AA, ..Default::default() };
+        p.answers.push(RefRR { name: owner_ref.clone(), class: 1, cache_flush: flush, ttl, rdata: typed(1, vec![Val::U32(0x0a0b0c0e)]) });
+        let bytes = p.encode(0);
+        let packet = simple_dns::Packet::parse(&bytes).map_err(|e| format!("{:?}", e))?;
+        if asynchronous {
+            let rt = tokio::runtime::Builder::new_current_thread().build().map_err(|e| format!("{}", e))?;
+            rt.block_on(add_response_to_resources_async(packet, &service, &own, &mut store, &mut None));
+        } else {
+            add_response_to_resources(packet, &service, &own, &mut store, &mut None);
+        }
+        let present = |store: &ResourceRecordManager<'static>| store.get_domain_resources(&owner, DomainResourceFilter::cached()).flatten().any(|r| matches!(&r.rdata, simple_dns::rdata::RData::A(a) if a.address == 0x0a0b0c0e));
+        let life: u64 = if flush { 1 } else { ttl as u64 };
+        if life >= 1 && !present(&store) {
+            bad.push(("ingest-exact|missing-at-once".to_string(), format!("ttl {} cache-flush {}: not returned right after reception", ttl, flush)));
+        }
+        if life >= 2 {
+            if !store.verif_advance(life - 1) {
+                return Err("clock".into());
+            }
+            if !present(&store) {
+                bad.push(("ingest-exact|expired-early".to_string(), format!("ttl {} cache-flush {}: gone {} s after reception, one second before its lifetime ends", ttl, flush, life - 1)));
+            }
+            if !store.verif_advance(1) {
+                return Err("clock".into());
+            }
+        } else if !store.verif_advance(life.max(1)) {
+            return Err("clock".into());
+        }
+        if present(&store) {
+            bad.push(("ingest-exact|outlives-ttl".to_string(), format!("ttl {} cache-flush {}: still returned {} s after reception", ttl, flush, life.max(1))));
+        }
+        Ok(bad)
+    });
+    match r {
+        Err(pn) => vec![finding(format!("C20|ingest-exact|{}", pn.sig()), format!("{:?}", pn), case)],
+        Ok(Err(e)) => {
+            eprintln!("MACHINERY: {}", e);
+            std::process::exit(2);
+        }
+        Ok(Ok(bad)) => bad.into_iter().map(|(t, d)| finding(format!("C20|{}", t), d, case.clone())).collect(),
+    }
+}
+
 /// The real services under the real clock: a watcher (sync or tokio ServiceDiscovery) hears one
 /// announcement from a raw UDP peer (TTL 1, or TTL 120 with the cache-flush bit), lists it, and
 /// must have dropped it 1.5 s and 2.1 s after the announcement.
@@ -536,6 +606,37 @@ pub fn socket_expiry_case(k: usize, asynchronous: bool, flush: bool) -> Result<V
                 break;
             }
         }
+        if bad.is_empty() {
+            // datagrams that carry no fresh record of the peer: the announcement as a query, a
+            // bare header claiming two answers, the announcement cut short, an unrelated response.
+            // None of them is a new reception, so the expired peer must stay gone.
+            let mut as_query = announcement.clone();
+            as_query[2] &= 0x7f;
+            let mut unrelated = RefPacket { id: 0, flags: F_QR | F_AA, ..Default::default() };
+            unrelated.answers.push(RefRR { name: RefName::txt("elsewhere.local"), class: 1, cache_flush: false, ttl: 120, rdata: typed(1, vec![Val::U32(0x0a010299)]) });
+            let noise: Vec<Vec<u8>> = vec![
+                as_query,
+                announcement[..12].to_vec(),
+                announcement[..announcement.len() - 1].to_vec(),
+                announcement[..announcement.len() / 2].to_vec(),
+                unrelated.encode(0),
+                announcement[..12].to_vec(),
+                vec![0u8; 12],
+                announcement[..13].to_vec(),
+            ];
+            for d in &noise {
+                let _ = tx.send_to(d, (std::net::Ipv4Addr::new(224, 0, 0, 251), 5353));
+                std::thread::sleep(Duration::from_millis(30));
+                if listed(&w) {
+                    bad.push(("socket-expiry|resurrected".to_string(), format!("an expired peer is listed again after a {}-byte datagram that carries no record of it ({})", d.len(), crate::engine::truncate(&crate::engine::hex(d), 80))));
+                    break;
+                }
+            }
+            std::thread::sleep(Duration::from_millis(80));
+            if bad.is_empty() && listed(&w) {
+                bad.push(("socket-expiry|resurrected".to_string(), "an expired peer is listed again after datagrams that carry no record of it (the announcement as a query, bare headers, truncated copies, an unrelated response)".to_string()));
+            }
+        }
         Ok(bad)
     });
     rt.shutdown_timeout(Duration::from_millis(100));
@@ -558,7 +659,7 @@ pub fn real_traces() -> Vec<Vec<Op>> {
 }
 
 pub fn run(ctx: &Ctx) {
-    let thorough = ctx.tier == crate::engine::Tier::Thorough;
+    let thorough = ctx.eff_tier() == crate::engine::Tier::Thorough;
     ctx.set_rule("explicit-state search to the fixpoint over 27 operations (add-authoritative, add-cached with TTL 0/1/2/1000 or the cache-flush bit, remove, clear, tick 1 s) on three records at svc.local and x.svc.local; states deduplicated by (per record: absent / authoritative / cached with 1 or 2 s left / cached long / expired; owners touched since the last clear); every transition out of every state is executed on a fresh real store (virtual clock through the verif_advance seam) and observed immediately and after 1, 2 and 3 further ticks (remaining lifetimes are hidden state a single query cannot show); all 12 (name, filter) queries are judged against the reference store at each observation. thorough: additionally every history of length <= 6 without deduplication. The seam is validated by traces replayed with real sleeps. non-trivial = state holds a cached record");
     ctx.assume("clock seam: verif_advance(1) moves stored deadlines one second into the past; real time spent on a path is microseconds, every comparison is a whole second away from a boundary except exact expiry, which is decided the same way for any real delay >= 0; paths slower than 250 ms are re-run and a violation is reported only if it reproduces");
     ctx.assume("completeness is demanded at a record's own name; subdomain queries are judged for soundness only");
@@ -653,7 +754,7 @@ pub fn run(ctx: &Ctx) {
             seqs.push(vec![a]);
             for b2 in recs {
                 seqs.push(vec![a, b2]);
-                if ctx.tier == crate::engine::Tier::Thorough {
+                if ctx.eff_tier() == crate::engine::Tier::Thorough {
                     for c in recs {
                         seqs.push(vec![a, b2, c]);
                     }
@@ -683,6 +784,29 @@ pub fn run(ctx: &Ctx) {
         ctx.space("network path: every sequence of <= 2 (3 thorough) receptions over 8 (TTL, cache-flush) shapes of one record, as plain and compressed datagrams parsed and ingested by the real sync and async add_response_to_resources, read back immediately and every second for 0/1/3/6/12 s after each reception; single receptions with 24 further TTLs (mDNS defaults, sign bit, maxima)", cases.len() as u64, "complete");
         ctx.sample(json!({"kind": "ingest", "seq": [[120, true]], "gap": 3, "async": false}));
     }
+    // exact lifetimes over a ladder of TTLs (mid-range values, not only round numbers)
+    {
+        let mut ttls: Vec<u32> = crate::gen::ladder_u32();
+        ttls.extend(crate::gen::magic_u32());
+        ttls.extend(2..=130u32);
+        ttls.sort();
+        ttls.dedup();
+        let cases: Vec<(u32, bool, bool)> = ttls.iter().flat_map(|t| [(false, false), (true, false), (false, true)].into_iter().map(move |(f, a)| (*t, f, a))).collect();
+        let chunks: Vec<&[(u32, bool, bool)]> = cases.chunks(32).collect();
+        par_shards(ctx, &chunks, |cs, t: &mut Tally| {
+            for (ttl, flush, asy) in cs.iter() {
+                t.evals += 1;
+                t.nontrivial += 1;
+                t.transitions += 3;
+                let f = check_ingest_exact(*ttl, *flush, *asy);
+                if !f.is_empty() {
+                    t.outcome("ingest-bad");
+                    ctx.violations(f);
+                }
+            }
+        });
+        ctx.space("exact lifetimes: one reception with each TTL of a geometric ladder through the 32-bit range, every TTL 2..=130 and the magic values, plain / cache-flush / tokio path: returned at once, still returned one second before the lifetime ends, gone when it ends", cases.len() as u64, "complete");
+    }
     // scale: many records under one name
     {
         let mut sizes: Vec<usize> = vec![1, 2, 4, 8, 9, 15, 16, 17, 31, 32, 33, 34, 50, 63, 64, 65, 100, 128, 129, 200, 256, 257, 500, 1000, 1023, 1024, 1025, 1026, 1100];
@@ -691,18 +815,24 @@ pub fn run(ctx: &Ctx) {
         }
         let cases: Vec<(usize, usize)> = sizes.iter().flat_map(|n| [0usize, n / 2, n - 1].into_iter().map(move |a| (*n, a))).collect();
         par_shards(ctx, &cases, |(n, a), t: &mut Tally| {
-            for variant in 0..2 {
+            for variant in 0..3 {
                 t.evals += 1;
                 t.transitions += *n as u64;
                 t.nontrivial += 1;
-                let f = if variant == 0 { check_scale(*n, *a, &|_| 1000) } else { check_scale(*n, *a, &|i| [1u32, 2, 1000, 0, 2][i % 5]) };
+                let f = if variant == 0 {
+                    check_scale(*n, *a, &|_| 1000)
+                } else if variant == 1 {
+                    check_scale(*n, *a, &|i| [1u32, 2, 1000, 0, 2][i % 5])
+                } else {
+                    check_scale_of(*n, *a, &|i| [1000u32, 2, 1000, 1, 0][i % 5], true)
+                };
                 if !f.is_empty() {
                     t.outcome("scale-bad");
                     ctx.violations(f);
                 }
             }
         });
-        ctx.space("scale: 1..=1100 (4100 thorough) distinct records (29+ sizes around powers of two) under two owner names, the authoritative one first / in the middle / last, all long-lived or TTLs cycling through 1,2,1000,0,2; read back during insertion, for 3 s afterwards and after a re-reception", (cases.len() * 2) as u64, "complete");
+        ctx.space("scale: 1..=1100 (4100 thorough) distinct records (29+ sizes around powers of two) under two owner names, the authoritative one first / in the middle / last, all long-lived, TTLs cycling through 1,2,1000,0,2, or records of hundreds of distinct TYPE codes; read back during insertion, for 3 s afterwards and after a re-reception", (cases.len() * 3) as u64, "complete");
     }
     if thorough {
         // every history of length <= 6, no deduplication
@@ -805,6 +935,9 @@ pub fn replay(case: &Value) -> Vec<Finding> {
     if case["kind"].as_str() == Some("socket-expiry") {
         return socket_expiry_case(case["k"].as_u64().unwrap_or(0) as usize + 50, case["async"].as_bool().unwrap_or(false), case["flush"].as_bool().unwrap_or(false)).unwrap_or_default();
     }
+    if case["kind"].as_str() == Some("ingest-exact") {
+        return check_ingest_exact(case["ttl"].as_u64().unwrap_or(0) as u32, case["flush"].as_bool().unwrap_or(false), case["async"].as_bool().unwrap_or(false));
+    }
     if case["kind"].as_str() == Some("ingest") {
         let seq: Vec<(u32, bool)> = serde_json::from_value(case["seq"].clone()).unwrap_or_default();
         return check_ingest(&seq, case["gap"].as_u64().unwrap_or(0), case["async"].as_bool().unwrap_or(false));
@@ -812,6 +945,9 @@ pub fn replay(case: &Value) -> Vec<Finding> {
     if case["kind"].as_str() == Some("scale") {
         let n = case["n"].as_u64().unwrap_or(1) as usize;
         let a = case["auth_at"].as_u64().unwrap_or(0) as usize;
+        if case["types"].as_bool() == Some(true) {
+            return check_scale_of(n, a, &|i| [1000u32, 2, 1000, 1, 0][i % 5], true);
+        }
         let mut f = check_scale(n, a, &|_| 1000);
         f.extend(check_scale(n, a, &|i| [1u32, 2, 1000, 0, 2][i % 5]));
         return f;
